@@ -138,5 +138,27 @@ pub fn scenarios(tier: Tier) -> Vec<Scenario> {
             add(2, 2, 1, 3, 8, 2);
         }
     }
+    // a subscriber callback that panics (after the new state has been published and read):
+    // whatever the store does about it, reads never go back.  Only the read oracle applies here
+    // (what happens to later actions after such a panic is not C08's business).
+    for (k, panic_at, bound) in if tier == Tier::Quick { vec![(3u32, 101u32, 2u32)] } else { vec![(3, 101, 3), (3, 100, 3), (2, 101, 4)] } {
+        let mut prog = producers(Program::new(StoreSpec::new(1, 4, Pol::Block)), 1, k, |_, id| Op::Dispatch(Act::new(id)));
+        prog = prog.thread("r0", (0..3).map(|i| Op::GetState(i as i64)).collect());
+        prog = prog.main(vec![
+            Op::AddSub { id: 1, gated: false, reads: true },
+            Op::AddPanicSub { id: 7, on: panic_at },
+            Op::SpawnAll,
+            Op::JoinAll,
+            Op::Quiesce,
+            Op::GetState(98),
+            Op::Stop,
+            Op::GetState(99),
+        ]);
+        v.push(scn(format!("C08/panic-sub/k{}at{}", k, panic_at), prog, bound, opts_elide(), |r, _| {
+            let mut f = check(r);
+            f.retain(|x| !x.sig.starts_with("stuck") && x.sig != "timeout");
+            f
+        }));
+    }
     v
 }
